@@ -313,7 +313,9 @@ class Array(Processor):
 
             # Skip redundant bits post decoding.
             if self.extensible and not ctx.is_encode:
-                ito = i + ahead * self.capacity
+                # Number of bits each element occupied in the stream.
+                element_nbits = (ctx.i - i - 16) // self.capacity
+                ito = i + 16 + ahead * element_nbits
                 if ito >= ctx.i:
                     ctx.i = ito
 
